@@ -296,6 +296,7 @@ pub proof fn lemma_filt_props(items: Seq<BedEntry>, s: u32, e: u32) -> (idx: Seq
 
 // ---------------- the record decoder (closure `read_entry`, lifted) ----------------
 //@extract closure bigtools/src/bbi/bigbedread.rs get_block_entries read_entry
+//@rule R16
 //@header fn read_entry(bytes: &mut Cur, endianness: Endianness, expected_chrom: u32) -> Result<Option<BedEntry>, BBIReadError>
 //@rule R6 min=1
 //@sub /match bigbed\.info\.header\.endianness \{/ => match endianness {
@@ -336,6 +337,7 @@ pub proof fn lemma_filt_props(items: Seq<BedEntry>, s: u32, e: u32) -> (idx: Seq
 //@end
 
 //@extract fn bigtools/src/bbi/bigbedread.rs get_block_entries
+//@rule R16
 //@presub /<R: BBIFileRead>\(\s*bigbed: &mut BigBedRead<R>,/ => (\n    endianness: Endianness,\n    data: Vec<u8>,
 //@presub /end: u32,\n\) -> Result<std::vec::IntoIter<BedEntry>, BBIReadError>/ => end: u32,\n    Ghost(items): Ghost<Seq<BedEntry>>,\n) -> Result<Vec<BedEntry>, BBIReadError>
 //@presub /[ \t]*let data = bigbed\.read\.get_block_data\(&bigbed\.info, &block\)\?;\n/ => ""
